@@ -139,7 +139,7 @@ def r_classify_sibling(ck: Checker) -> None:
         ck.holds("R-CLASSIFY-SIBLING", f, lp1[0], what, evaluations=len(v1), table={str(k): v for k, v in v1.items()})
     else:
         diff = {str(k): (v1.get(k), v2.get(k)) for k in set(v1) | set(v2) if v1.get(k) != v2.get(k)}
-        ck.violation("R-CLASSIFY-SIBLING", f, lp1[0], what, construct=f"check_annotations vs process_node_fields differ on {diff}")
+        ck.violation("R-CLASSIFY-SIBLING", f, lp1[0], what, also=(p,), construct=f"check_annotations vs process_node_fields differ on {diff}")
     what = "check_annotations reads the annotations through get_type_hints and raises InvalidFieldAnnotations when any field is rejected"
     txt = norm(f.node)
     tparam = f.node.args.args[0].arg
@@ -200,6 +200,10 @@ def r_normalise(ck: Checker) -> None:
             return prov(e.args[-1], env)
         if isinstance(e, ast.IfExp):
             return prov(e.body, env) | prov(e.orelse, env)
+        if isinstance(e, ast.Subscript) and (dotted(e.value) or "").split(".")[-1] in ("Optional", "Union") and "hints" in prov(e.slice.elts[0] if isinstance(e.slice, ast.Tuple) else e.slice, env):
+            return {"widened"}
+        if isinstance(e, ast.BinOp) and isinstance(e.op, ast.BitOr) and ("hints" in prov(e.left, env) or "hints" in prov(e.right, env)):
+            return {"widened"}
         if isinstance(e, ast.Attribute) and e.attr == "__supertype__":
             return {"one-level"} | (prov(e.value, env) - {"hints"})
         if isinstance(e, ast.Attribute) and e.attr == "type" and norm(e.value) == fv:
@@ -210,6 +214,7 @@ def r_normalise(ck: Checker) -> None:
 
     leaves = decision_tree(lp.body, max_atoms=10)
     n_store = 0
+    widened = None
     for lf in leaves:
         env: dict[str, set[str]] = {}
         for st in lf.stmts:
@@ -220,7 +225,9 @@ def r_normalise(ck: Checker) -> None:
                 elif isinstance(tg, ast.Subscript) and norm(tg.slice) == fv:
                     n_store += 1
                     p_ = prov(st.value, env)
-                    if "raw" in p_:
+                    if "widened" in p_:
+                        widened = widened or st
+                    elif "raw" in p_:
                         bad = bad or f"the stored type is read from {fv}.type"
                     elif "one-level" in p_:
                         bad = bad or "a NewType is unwrapped one level only (.__supertype__): a NewType of a NewType reaches the classifier unresolved"
@@ -235,6 +242,11 @@ def r_normalise(ck: Checker) -> None:
             if extra or len(c_.args) != 1:
                 bad = bad or (f"get_type_hints is called with {', '.join(str(e) for e in extra) or 'extra arguments'}: the annotations reach the classifier in another form "
                               "(e.g. Annotated[...] wrappers kept)")
+    if widened is not None:
+        ck.violation("R-NORMALISE", f, widened, "the type stored for a field is its declared annotation (resolved), nothing wider", positive=True,
+                     construct="get_field_types: the stored type is the annotation wrapped in Optional / a union built here — values the declared annotation rules out (None) "
+                     "pass the run-time check, and the classification sees an annotation the class does not declare")
+        return
     if not n_store and not bad:
         raise Unsupported("get_field_types: result store not found", lp)
     (ck.violation if bad else ck.holds)("R-NORMALISE", f, lp, what, **({"construct": f"get_field_types: {bad} (bypasses get_type_hints)"} if bad else {"evaluations": len(leaves)}))
@@ -327,6 +339,45 @@ def _enclosing_if_test(n: ast.AST, parents: dict[int, ast.AST]) -> ast.expr | No
         if isinstance(cur, ast.If) and any(prev is s for s in cur.body):
             return cur.test
     return None
+
+
+MUTABLE_BUILTINS = {"list", "dict", "set", "bytearray", "deque", "collections.deque", "defaultdict", "collections.defaultdict", "OrderedDict", "collections.OrderedDict",
+                    "Counter", "collections.Counter", "array", "array.array", "MutableSequence", "MutableMapping", "MutableSet", "UserList", "UserDict"}
+
+
+def r_collection_exclusions(ck: Checker) -> None:
+    """is_collection is the door to the mutability test: is_valid_property_type asks is_mutable_collection only for what is_collection lets
+    in.  A type that is_collection declares "not a collection" (the `not issubclass(x, (...))` part) is accepted as a property without further
+    questions, so that list may only hold immutable types (positive pattern: a mutable builtin / ABC among the exclusions)."""
+    f = ck.repo.func(TYPING, "is_collection")
+    tree = ck.repo.mod(TYPING).tree
+    consts = {st.targets[0].id: st.value for st in tree.body if isinstance(st, ast.Assign) and len(st.targets) == 1 and isinstance(st.targets[0], ast.Name)}
+    n = 0
+    for fn in [x for x in (f.raw, f.node) if x is not None]:
+        for c in ast.walk(fn):
+            if not (isinstance(c, ast.UnaryOp) and isinstance(c.op, ast.Not) and isinstance(c.operand, ast.Call) and dotted(c.operand.func) == "issubclass" and len(c.operand.args) == 2):
+                continue
+            n += 1
+            e = c.operand.args[1]
+            if isinstance(e, ast.Name) and e.id in consts:
+                e = consts[e.id]
+            elts = e.elts if isinstance(e, (ast.Tuple, ast.List)) else [e]
+            names = [dotted(x) or norm(x) for x in elts]
+            if names in (["Collection"], ["collections.abc.Collection"], ["abc.Collection"]):
+                n -= 1
+                continue  # (the negation of the membership test itself, as the normaliser spells a guard clause)
+            what = "is_collection excludes only immutable types from the collections (whatever it excludes skips the mutability test of properties)"
+            bad = [x for x in names if x in MUTABLE_BUILTINS]
+            unknown = [x for x in names if x not in MUTABLE_BUILTINS and x not in ("str", "bytes", "frozenset", "tuple", "range", "memoryview")]
+            if bad:
+                ck.violation("R-QUANTIFY-ALL", f, c, what, positive=True,
+                             construct=f"is_collection: {norm(c)[:70]} — `{bad[0]}` is mutable, and an annotation is_collection turns away is never asked for mutability: it becomes a valid property")
+            elif unknown:
+                raise Unsupported(f"is_collection excludes {unknown[0]}", c)
+            else:
+                ck.holds("R-QUANTIFY-ALL", f, c, what, excluded=names)
+    if n == 0:
+        ck.incomplete("R-QUANTIFY-ALL", f, f.node, "is_collection: no `not issubclass(x, ...)` exclusion found (2 confirmed by hand)")
 
 
 def r_gatekeeper(ck: Checker) -> None:
@@ -462,6 +513,7 @@ def run(ck: Checker) -> None:
     ck.guard("R-NEWTYPE", lambda: r_newtype(ck))
     ck.guard("R-QUANTIFY-ALL", lambda: r_quantify_all(ck))
     ck.guard("R-QUANTIFY-ALL", lambda: r_gatekeeper(ck))
+    ck.guard("R-QUANTIFY-ALL", lambda: r_collection_exclusions(ck))
     ck.guard("R-CHILD-KIND", lambda: r_child_kind(ck))
     from . import templates_rules as T
     ck.guard("R-TYPES-CACHE", lambda: T.r_types_cache(ck))
